@@ -245,7 +245,14 @@ class DENMTransmissionManagement:
             new_denm.sequence_number = sequence_number
             new_denm.fullfill_with_vehicle_data(self.vehicle_data)
             new_denm.fullfill_with_denrequest(denm_request)
-            self.transmit_denm(new_denm)
+            try:
+                self.transmit_denm(new_denm)
+            except Exception:
+                # One repetition could not be handed to the lower layer: the
+                # event goes on being repeated until its duration has elapsed.
+                self.logging.exception(
+                    "DENM repetition could not be sent - continuing with the next one"
+                )
             time.sleep(denm_request.denm_interval / 1000)
             transmission_time += denm_request.denm_interval
 
